@@ -347,7 +347,7 @@ class BinTableLists(AbstractBinTable):
     def _sum_per_column(self, rows: List[int] = None, columns: List[int] = None) -> List[int]:
         rows = range(self.height) if rows is None else rows
         if columns is None:
-            vals, columns = range(self.width), [0] * self.width
+            vals, columns = [0] * self.width, range(self.width)
         else:
             vals = [0] * len(columns)
 
